@@ -105,7 +105,7 @@ func (ts *TermStore) Var(name string, s Sort) *Term {
 
 func (ts *TermStore) Fresh(prefix string, s Sort) *Term {
 	ts.fresh++
-	return ts.Var(fmt.Sprintf("%s!%d", prefix, ts.fresh), s)
+	return ts.Var(fmt.Sprintf("%s!%d@%s", prefix, ts.fresh, s), s)
 }
 
 func (ts *TermStore) Const(s Sort, bits uint64) *Term {
